@@ -1,5 +1,6 @@
 SPECIFICATION Spec
 CONSTANTS
+  CopyOnEntry = TRUE
   Depth = 2
   Emit = TRUE
 INVARIANT CopyingOpsFrame
